@@ -128,6 +128,9 @@ pub fn run_corners(rep: &mut Report, runner: &mut Runner, property: &str) {
                 }
                 let idx = runner.run_here(&cfg, &p.cmds, vec![format!("corner|{label}|{mode}")], &format!("corner scenario {label} ({mode}, trailing={trailing})"));
                 rep.count("corner-scenarios");
+                if mode != "verify" && runner.cases[idx].imp.verdict != "ok" {
+                    rep.notes.push(format!("corner scenario {label} ({mode}) ends `{}`: only the verdict is compared there", runner.cases[idx].imp.verdict));
+                }
                 // (a source that reads its own output is not idempotent - the side condition of the C08 theorems excludes it)
                 let self_reading = label.contains("reads-own-output");
                 if (mode == "build" || mode == "needed") && runner.cases[idx].imp.verdict == "ok" && !self_reading {
